@@ -40,7 +40,7 @@ func runShard(r *vlib.Run, sh string) {
 		return
 	}
 	for _, c := range curvesRunC04L {
-		if sh == "L/"+c.name {
+		if sh == "L/"+c.name || sh == "Lbig/"+c.name {
 			c.run(r, sh)
 			return
 		}
